@@ -381,7 +381,7 @@ def c14_analyse(parsed):
 class C14:
     level = "proof"
     design_ref = "DESIGN.md section 8, C14"
-    technique = "Coq proof (mixed-radix termination measure, DFS divergence invariant) + component replay of rt/path.rs"
+    technique = "Coq proof (mixed-radix termination measure, DFS divergence invariant; both instantiated on the concrete iteration of the execution model L: L_explore_terminates, L_decisions_distinct) + component replay of rt/path.rs"
     level_text = ("Machine-checked theorems about the Coq transcription of rt/path.rs: for every iteration function that uses the stack "
                   "only through the Path API, exploration stops within 8^max_branches iterations, any two iterations diverge at a definite "
                   "position (no repeats, depth-first), and each API function satisfies the iteration contract. The model is tied to the code by "
@@ -574,7 +574,7 @@ def mk(cls_name, **kw):
 
 class C01(OutcomeCheck):
     kinds = ("missing", "missed-failure")
-    technique = "Coq model + refutation/partial theorems; whole-run correspondence; outcome-set oracle against the interleaving semantics R"
+    technique = "Coq model + refutation theorems (listed findings) + partial theorems (DFS exhaustion of every registered alternative, for the abstract stack and for the concrete model: L_exhaustive_complete); whole-run correspondence; outcome-set oracle against the interleaving semantics R"
     rule = "bounded-exhaustive F-sync core (2-3 threads x <=2 macro-ops per object kind, SC atomics) + seeded random programs over all object kinds; distinct = program text"
     level_text = ("The full completeness statement (every outcome of the interleaving semantics R is explored) is a Coq Definition; DPOR completeness is not proved. "
                   "Proved: the DFS over registered alternatives is exhaustive and terminating (C14 theorems), the Path API contract. The faithful model is tied to the code by "
@@ -616,21 +616,21 @@ class C05(OutcomeCheck):
 
 class C07(OutcomeCheck):
     kinds = ("forbidden", "spurious-failure")     # completeness of the exploration is C01 / C05
-    technique = "Coq lemmas (try_* exactness, hand-over of clocks) + whole-run correspondence + lock-language trace check + outcome oracle"
+    technique = "Coq proof (mutual exclusion as a global invariant of every run of the model: ExclFacts.run_excl_inv, mutex_exclusion, rwlock_writer_excludes; try_* exactness; hand-over of clocks over any number of intermediate steps: SyncMono) + whole-run correspondence + lock-language trace check + outcome oracle"
     rule = "bounded-exhaustive F-lock core (<=2 mutexes, rwlock, nested/overlapping sections with cells inside) + seeded random lock programs; every execution's trace is checked for exclusion"
     level_text = ("Proved (SyncFacts): try_lock/try_read/try_write succeed exactly when the lock is compatible at the step; release publishes the releaser's clock and the next "
                   "acquire joins it (hand-over happens-before). Exclusion and blocking are checked on every explored execution's trace and against R. " + PARTIAL_NOTE)
-    level_note = "partial: exclusion as a global invariant of all executions is checked per execution, not proved"
+    level_note = "exclusion and hand-over are theorems about the model L for all programs and schedules; blocking / no-starvation outcomes (which acquisition orders are explored) are oracle-checked on the bounded core; the tie of L to the code is differential"
     ref_mode = "refw"
     det_family = lambda self, ctx: gen.fam_lock_core(ctx.tier)
-    rnd_family = rnd("c07r", "MRUA")
+    rnd_family = lambda self, ctx: rnd("c07r", "MRUA")(self, ctx) + gen.fam_rw_recursive()
 
     def extra(self, ctx, fam, lines):
         return lock_trace_check(fam, lines)
 
 
 class C08(OutcomeCheck):
-    technique = "Coq lemmas (notify/park/join clock transfer) + refutations + whole-run correspondence + outcome oracle"
+    technique = "Coq proof (a pending notification survives every step but the waiter's consuming step; no_lost_wakeup over arbitrary interleavings; a blocked waiter is resumed only by a notify; at most one spurious return; clock transfer) + refutation of the listed finding D14 + whole-run correspondence + outcome oracle"
     rule = "bounded-exhaustive F-wait core (condvar, Notify, park/unpark, join; early/late/double notifications) + seeded random"
     level_text = ("Proved (SyncFacts): a wait returns only with the flag set and consumes it, notify publishes the notifier's clock to the woken thread, unpark joins clocks. "
                   "Refuted on the current tree (listed findings): park tokens are lost / unpark wakes threads blocked elsewhere. " + PARTIAL_NOTE)
@@ -641,7 +641,7 @@ class C08(OutcomeCheck):
 
 
 class C09(OutcomeCheck):
-    technique = "Coq lemmas (send/recv clock transfer, message count) + whole-run correspondence + outcome oracle"
+    technique = "Coq proof (global invariant of every run: message count = queued views = std queue length; every step appends one value at the back, removes the front, or leaves the queue alone; FIFO hand-over of clocks over any steps) + whole-run correspondence + outcome oracle"
     rule = "bounded-exhaustive F-chan core (1-3 senders, one receiver, recv/try_recv/drop) + seeded random channel programs"
     level_text = ("Proved (SyncFacts): every send increments the message count and publishes the sender's clock in FIFO position, a receive joins the clock of the message it takes, "
                   "receive on an empty channel cannot complete. FIFO/exactly-once/try_recv exactness are compared with R on the core. " + PARTIAL_NOTE)
@@ -663,7 +663,7 @@ class C10(OutcomeCheck):
 
 
 class C11(OutcomeCheck):
-    technique = "Coq lemmas (ref-count transfer, final drop acquires every earlier drop's clock) + whole-run correspondence + outcome oracle"
+    technique = "Coq proof (global invariant of every disciplined run: reference count = live handles + drops in flight; strong_count / try_unwrap / final drop characterised by it; final drop acquires every earlier drop's clock over any steps) + whole-run correspondence + outcome oracle"
     rule = "bounded-exhaustive F-arc core (clone/strong_count/get_mut/try_unwrap/drop in 2-3 threads) + seeded random"
     level_text = ("Proved (SyncFacts): each drop publishes its clock, the drop that reaches zero joins all of them; counts returned by strong_count/get_mut/try_unwrap are compared with the "
                   "reference counter machine R for every interleaving of the core. " + PARTIAL_NOTE)
@@ -674,7 +674,7 @@ class C11(OutcomeCheck):
 
 
 class C18(OutcomeCheck):
-    technique = "Coq model (yield scheduling, seen-before-yield pruning) + whole-run correspondence + outcome oracle with blocking await"
+    technique = "Coq proof (Execution::schedule after yield_now: the yielder is not chosen while another thread is runnable, continues when alone, others are re-activated; branch limit arithmetic) + whole-run correspondence + outcome oracle with blocking await"
     rule = "bounded-exhaustive F-spin core (one await loop at every placement over atomics written once, all orderings) + never-true loop with a small branch limit"
     level_text = ("Spin loops are compared with R where await is a blocking read: every exit combination must be explored and the branch limit must not be hit; a loop that can never exit "
                   "must end in the branch-limit panic. " + PARTIAL_NOTE)
@@ -836,7 +836,7 @@ def sched_preemption_check(dump, bound):
 class C15:
     level = "proof"
     design_ref = "DESIGN.md section 8, C15"
-    technique = "Coq proof (preemption-bound invariant of the Path API and of every model iteration) + component replay + independent preemption count on the implementation's dumps + outcome-set monotonicity oracle"
+    technique = "Coq proof (stored-counter invariant of the Path API and of every model iteration; INDEPENDENT count of switches away from a runnable thread <= bound on every path of the exploration of every program: L_explore_switches_le_bound) + component replay + independent preemption count on the implementation's dumps + outcome-set monotonicity oracle"
     level_text = ("Proved: c15_inv (every Schedule entry has preemptions() <= bound, and an entry at the bound holds no pending alternative) is preserved by every Path API function and by step, "
                   "and by every iteration of the model L (ExecFacts.L_preemptions_le_bound). The count is validated against an independent definition on the implementation's own stacks; "
                   "'found with bound n => found unbounded', monotonicity in n and equality for n >= program size are compared on the bounded-exhaustive core (not proved: they need DPOR completeness).")
@@ -1319,7 +1319,7 @@ class C16:
                 if hl and ("badprog" in hl[-1] or hl[-1].endswith(" capped")):
                     continue
                 npar += 1
-                ml = mp.get(i, {"lines": []})["lines"]
+                ml = corr.strip_api(mp.get(i, {"lines": []})["lines"])
                 if hl != ml:
                     k = 0
                     while k < min(len(hl), len(ml)) and hl[k] == ml[k]:
@@ -1347,7 +1347,7 @@ class C02(OutcomeCheck):
     kinds = ("missing",)
     cap = 30000
     ref_mode = ("rc11s", "rc11w")
-    technique = "executable RC11 (Coq, validated on the published litmus verdicts) as lower-bound oracle + whole-run correspondence of the view-based atomic model; fence/clock lemmas proved"
+    technique = "executable RC11 (Coq, validated on the published litmus verdicts) as lower-bound oracle + whole-run correspondence of the view-based atomic model; proved: exact characterisation of load candidate sets (nothing is excluded but for the three coherence reasons; never empty; every mo-maximal store is a candidate), fence/clock lemmas"
     rule = "F-litmus: SB, MP, LB, S, R, CoRR/CoWR/CoRW, 2+2W, WRC, RWC, IRIW, RMW and CAS shapes, release sequences x ordering assignments x fence insertions (2-thread shapes exhaustively in the thorough tier) + seeded random atomic programs"
     level_text = ("The statement 'every RC11-consistent outcome with acyclic po+rf is explored (fewer stores than the history)' is compared against RC11.v, an executable transcription of RC11 "
                   "(strong instance: SeqCst accesses are SC) that enumerates all consistent outcomes of each litmus program; a missing outcome is a violation (over-synchronisation). "
@@ -1362,7 +1362,7 @@ class C03(OutcomeCheck):
     kinds = ("forbidden",)
     cap = 30000
     ref_mode = ("rc11s", "rc11w")
-    technique = "executable RC11 (weak instance: SeqCst accesses demoted, C++20 release sequences) as upper-bound oracle + whole-run correspondence; refutation witnesses for the listed coherence/atomicity findings"
+    technique = "executable RC11 (weak instance: SeqCst accesses demoted, C++20 release sequences) as upper-bound oracle + whole-run correspondence; proved: CoWR/CoRR and SeqCst exclusion for arbitrary states and thread counts, RMW reads a mo-maximal store, RMW-atomicity fixpoint of the repaired store rule, release/acquire clock hand-over"
     rule = C02.rule
     level_text = ("Every outcome of every explored iteration of the litmus core must be allowed by the weakest documented model (RC11.v weak instance: SeqCst accesses behave as acquire/release as loom's "
                   "README says, SC fences kept, C++20 release sequences). Forbidden outcomes are violations; the ones caused by the listed modification-order defect are known findings with their exact inputs. "
@@ -1526,14 +1526,14 @@ def tls_trace_check(fam, lines):
 
 
 class C17(OutcomeCheck):
-    technique = "Coq model of LocalKey / Lazy (per-thread key set, per-execution registry with its synchronisation point) + whole-run correspondence + trace checks of init-once / drop / re-init + outcome oracle"
+    technique = "Coq proof (global invariants of every run: initialisations logged = keys held, at most one per thread and key; a lazy static is initialised at most once per execution, the registry stays shut after main's exit, initialisation happens-before every later access) + whole-run correspondence incl. try_with from a destructor during thread teardown + trace checks + outcome oracle"
     rule = "F-tls: 1-2 thread-locals and 1-2 lazy statics touched from 1-4 threads in all orders, repeated and nested use, use before/after join, unjoined threads; every iteration's init/drop lines are checked"
     level_text = ("The model carries the per-thread set of initialised keys and the per-execution lazy-static registry (value cell + Synchronize); whole-run correspondence compares every initialisation, every "
                   "destructor and every value with the implementation on the F-tls core (destructor order canonicalised: it is HashMap order in the code). On the implementation's traces: one initialisation "
                   "per thread and key, destruction when the thread finishes, one initialisation per execution for a lazy static, all threads read the initialised value (a loom cell written by the initialiser, so "
                   "initialisation happens-before every access or a race is reported), destruction at the end of the iteration, re-initialisation in the next one. Proved: fresh state per iteration (C16 theorems), "
                   "the race test exactness used for the init-happens-before-access edge (C04 theorems).")
-    level_note = "partial: mostly correspondence + trace checks; Lazy::get has no scheduling point, so which thread initialises is decided by the surrounding operations only"
+    level_note = "init-once / shutdown / init-happens-before-access are theorems about L; destruction at thread exit, AccessError after teardown and privacy are decided by correspondence + trace checks; Lazy::get has no scheduling point, so which thread initialises is decided by the surrounding operations only"
     ref_mode = "refw"
     det_family = lambda self, ctx: gen.fam_tls_core(ctx.tier)
     rnd_family = lambda self, ctx: []
@@ -1564,11 +1564,15 @@ def fut_trace_check(fam, lines):
             elif w[0] == "P":
                 k = (int(w[1]), int(w[2]))
                 polls[k] = polls.get(k, 0) + 1
+                ins = bodies[k[0]][k[1]].split() if k[0] < len(bodies) and k[1] < len(bodies[k[0]]) else []
+                if ins and ins[0] == "bs" and polls[k] > 1:
+                    # the first Pending poll spawned the waking threads
+                    spawned |= {int(x) for x in ins[3:5] if int(x) != 0}
                 started = 0
                 for b in spawned:
                     nxt = done_pc.get(b, -1) + 1
                     for pc, o in enumerate(bodies[b]):
-                        if o.split()[0] == "wk" and pc <= nxt:
+                        if o.split()[0] in ("wk", "wme") and pc <= nxt:
                             started += 1
                 if polls[k] - 1 > started + 1:
                     bad = f"iteration {n}: block_on at {k} polled {polls[k]} times with only {started} wake calls started"
@@ -1583,13 +1587,13 @@ def fut_trace_check(fam, lines):
 
 
 class C20(OutcomeCheck):
-    technique = "Coq model of block_on / AtomicWaker as derived programs over Notify, Arc and Mutex + Notify lemmas + whole-run correspondence (features futures) + outcome oracle + re-poll trace check"
-    rule = "F-fut: one blocked future (poll = check, register with an AtomicWaker, re-check) and 1-2 waking threads: wake before/after/during poll and registration, lost and missing wakes, two futures in sequence"
+    technique = "Coq proof (rt::Notify, which backs block_on's waker: no_lost_wakeup over arbitrary interleavings, re-poll only after a notify or the single spurious return) + Coq model of block_on / AtomicWaker / directly handed wakers as derived programs over Notify, Arc and Mutex + whole-run correspondence (features futures) + outcome oracle (R with wake edges) + re-poll trace check"
+    rule = "F-fut: one blocked future (poll = check, register with an AtomicWaker, re-check) and 1-2 waking threads: wake before/after/during poll and registration, lost and missing wakes, two futures in sequence; futures whose first Pending poll hands a waker clone to each of 1-2 spawned threads (the wake itself carries the ordering)"
     level_text = ("block_on and AtomicWaker::register/wake/take_waker are modelled as the sequences of rt operations their source performs (Notify(false,true) inside a loom Arc, waker clone/drop as RefInc/RefDec, "
                   "rt::Mutex(false) with try-acquire on register); every decision, poll and result is compared with the implementation built with the futures feature. R: a future blocked in block_on completes iff "
                   "its value can be read, after a wake-up or once spuriously; a run where no wake can arrive deadlocks. Proved: the Notify lemmas of C08 (a wait completes only with the flag set, notify publishes), "
                   "fresh state per iteration. On traces: polls - 1 <= completed wake-ups + 1 for every block_on.")
-    level_note = "partial: correspondence + oracle on the bounded core; the AtomicWaker protocol theorem over all interleavings is not proved"
+    level_note = "the Notify half is a theorem about L for all interleavings; the AtomicWaker register/take protocol over all interleavings is decided by correspondence + oracle on the bounded core"
     ref_mode = "refw"
     det_family = lambda self, ctx: gen.fam_fut_core(ctx.tier)
     rnd_family = lambda self, ctx: []
